@@ -31,6 +31,7 @@ use cairo_lang_utils::unordered_hash_map::UnorderedHashMap;
 use num_bigint::{BigInt, BigUint};
 use num_traits::{Signed, ToPrimitive};
 use smol_str::SmolStr;
+use starknet_types_core::felt::Felt as Felt252;
 use thiserror::Error;
 
 use crate::compiler_version::VersionId;
@@ -172,9 +173,12 @@ impl<T: Felt252Serde> Felt252Serde for Vec<T> {
 
 impl Felt252Serde for BigInt {
     fn serialize(&self, output: &mut Vec<BigUintAsHex>) -> Result<(), Felt252SerdeError> {
-        output.push(BigUintAsHex {
-            value: self.to_biguint().ok_or(Felt252SerdeError::BigIntOutOfBounds)?,
-        });
+        let value = self.to_biguint().ok_or(Felt252SerdeError::BigIntOutOfBounds)?;
+        // The value must be a canonical felt252, or reading the serialization back fails.
+        if value >= Felt252::prime() {
+            return Err(Felt252SerdeError::BigIntOutOfBounds);
+        }
+        output.push(BigUintAsHex { value });
         Ok(())
     }
     fn deserialize<'a, I: ExactSizeIterator<Item = &'a BigUint>>(
